@@ -150,11 +150,16 @@ C["C11"]["harnesses"] += [
     H("ZZWriterPieceTwice", "internal/peerconn/peerwriter", "the same request served twice: second answer is a reject frame and is not counted as uploaded payload", T(45, 600), T(45, 600)),
 ]
 C["C09"]["harnesses"] = [h for h in C["C09"]["harnesses"] if h["fn"] != "ZZPickerSequential3"] + [
-    H("ZZPickerRich1", "torrent", "arbitrary progress (verified pieces), arbitrary bitfields and choke state of both peers, then 1 event (reaches end-game and stalled-download states)", T(40, 1800, 8, 6, flags=["-nospawn"]), None, replay="model"),
+    H("ZZPickerRich0", "torrent", "rich initial state: arbitrary progress (verified pieces), an allowed-fast grant, arbitrary bitfields and choke state of both peers (reaches end-game, allowed-fast-while-choked and duplicate-download states); also no starvation: an idle unchoked peer holding a needed piece that is unrequested, or - in end game - below the duplicate limit, gets a request", T(40, 1800, 4, 5, flags=["-nospawn"]), T(40, 1800, 4, 5, flags=["-nospawn"]), replay="model"),
+    H("ZZPickerRich0Sequential", "torrent", "the same in sequential mode", T(40, 1800, 4, 5, flags=["-nospawn"]), T(40, 1800, 4, 5, flags=["-nospawn"]), replay="model"),
+    H("ZZPickerRich1", "torrent", "rich initial state then 1 event", None, T(40, 7000, 32, 8, flags=["-nospawn"]), replay="model"),
     H("ZZPickerSequential3", "torrent", "3 events in sequential mode, plus: a non-allowed-fast pick for an unchoked peer is the lowest eligible piece, file-edge pieces first", None, T(40, 3600, 16, 7, flags=["-nospawn"]), replay="model"),
     H("ZZPickerRich2", "torrent", "rich initial state then 2 events", None, T(40, 7000, 32, 8, flags=["-nospawn"]), replay="model"),
     H("ZZPickerRichSequential1", "torrent", "rich initial state, sequential mode, 1 event", None, T(40, 3600, 16, 7, flags=["-nospawn"]), replay="model"),
 ]
+
+C["C10"]["harnesses"] += [h for h in C["C09"]["harnesses"] if h["fn"] in ("ZZPickerRich0", "ZZPickerRich0Sequential", "ZZPickerRichSequential1", "ZZPickerRich1")]
+C["C10"]["assumptions"] += ["no-starvation clause: torrent fixture (real newTorrent/startPeer/handlers, real picker), requests recorded; whole-download completion over all layouts is argued from the per-piece harnesses plus no-starvation, not run end to end"]
 
 C["C13"]["harnesses"] += [
     H("ZZMetadataSizeCap", "torrent", "magnet torrent, extension handshake with an arbitrary 64-bit announced metadata size (maximum configured to 3 blocks): a fetch starts only for a positive size within the maximum from a peer offering ut_metadata; buffer == announced size", T(45, 900, flags=["-nospawn"]), T(45, 900, flags=["-nospawn"]), replay="model"),
